@@ -359,6 +359,178 @@ theorem write_then_read (m : PMap) (hg : GoodMap m) (i : Nat) (t len : Nat) (e :
       · simp [hb]
     rw [hfield]
 
+/-! ## periodic transmission (`start` / `stop` / `update`) does not change what `transmit` sends -/
+
+/-- **Transmission sends exactly one frame with the map's COB-ID and current data whatever the
+    periodic state**: for any value of the running flag (and of the period attribute) `transmit`
+    hands `(cob, data)` to the bus. -/
+theorem transmit_any_running (m : PMap) (c : Nat) (r p : Option Int) (h : m.cobId = some c) :
+    transmit { m with running := r, period := p } = some (c, m.data) := by
+  simp [transmit, h]
+
+theorem transmit_core (m : PMap) : transmit (core m) = transmit m := rfl
+theorem readVar_core (m : PMap) (i : Nat) : readVar (core m) i = readVar m i := rfl
+theorem remoteRequest_core (m : PMap) : remoteRequest (core m) = remoteRequest m := rfl
+
+/-- a periodic-transmission call touches nothing but the running flag and the period -/
+theorem core_ctl (m : PMap) (c : Ctl) : core (ctl m c) = core m := by
+  cases c with
+  | start p =>
+    simp only [ctl, start]
+    split
+    · split <;> rfl
+    · rfl
+  | stop => rfl
+  | update => rfl
+
+/-- a typed write does not look at the periodic state -/
+theorem core_write (m : PMap) (i : Nat) (v : Val) :
+    core ((writeVar m i v).getD m) = (writeVar (core m) i v).getD (core m) := by
+  unfold writeVar
+  have hl : lens (core m) = lens m := rfl
+  have hy : (core m).layout = m.layout := rfl
+  have hd : (core m).data = m.data := rfl
+  rw [hl, hy, hd]
+  cases m.layout[i]? with
+  | none => rfl
+  | some tl =>
+    obtain ⟨t, len⟩ := tl
+    cases (offsets (lens m))[i]? with
+    | none => rfl
+    | some off =>
+      dsimp only
+      cases writeRaw m.data (some t) off len v with
+      | none => rfl
+      | some d => rfl
+
+theorem core_pstep (m m' : PMap) (s : PStep) (h : core m = core m') :
+    core (pstep m s) = core (if s.isWrite then pstep m' s else m') := by
+  cases s with
+  | write i v =>
+    simp only [pstep, PStep.isWrite, if_true]
+    rw [core_write, core_write, h]
+  | ctl c =>
+    simp only [pstep, PStep.isWrite]
+    rw [core_ctl]
+    exact h
+
+theorem core_runP : ∀ (steps : List PStep) (m m' : PMap), core m = core m' →
+    core (runP m steps) = core (runP m' (steps.filter PStep.isWrite)) := by
+  intro steps
+  induction steps with
+  | nil => intro m m' h; exact h
+  | cons s rest ih =>
+    intro m m' h
+    have hs := core_pstep m m' s h
+    cases hw : s.isWrite with
+    | true =>
+      rw [hw] at hs
+      simp only [runP, List.foldl_cons, List.filter_cons, hw, if_true] at *
+      exact ih _ _ hs
+    | false =>
+      rw [hw] at hs
+      simp only [runP, List.foldl_cons, List.filter_cons, hw] at *
+      exact ih _ _ hs
+
+/-- **Any history of writes and `start` / `stop` / `update` calls on a producer map leaves the map
+    exactly as the same history with every periodic call erased** — up to the running flag and the
+    period attribute themselves. -/
+theorem periodic_calls_erased (m : PMap) (steps : List PStep) :
+    core (runP m steps) = core (runP m (steps.filter PStep.isWrite)) :=
+  core_runP steps m m rfl
+
+/-- **The frame `transmit` sends, every variable's reading and the remote-request decision after a
+    history are those of the history without its periodic calls**: a running periodic transmission
+    neither suppresses nor alters the single-shot frame. -/
+theorem transmit_independent_of_periodic (m : PMap) (steps : List PStep) :
+    transmit (runP m steps) = transmit (runP m (steps.filter PStep.isWrite)) ∧
+    (∀ i, readVar (runP m steps) i = readVar (runP m (steps.filter PStep.isWrite)) i) ∧
+    remoteRequest (runP m steps) = remoteRequest (runP m (steps.filter PStep.isWrite)) := by
+  have h := periodic_calls_erased m steps
+  refine ⟨?_, ?_, ?_⟩
+  · rw [← transmit_core, h, transmit_core]
+  · intro i; rw [← readVar_core, h, readVar_core]
+  · rw [← remoteRequest_core, h, remoteRequest_core]
+
+/-- the COB-ID and the layout survive every step -/
+theorem runP_cob_layout : ∀ (steps : List PStep) (m : PMap),
+    (runP m steps).cobId = m.cobId ∧ (runP m steps).layout = m.layout := by
+  intro steps
+  induction steps with
+  | nil => intro m; exact ⟨rfl, rfl⟩
+  | cons s rest ih =>
+    intro m
+    have hs : (pstep m s).cobId = m.cobId ∧ (pstep m s).layout = m.layout := by
+      cases s with
+      | write i v =>
+        simp only [pstep, writeVar]
+        cases m.layout[i]? with
+        | none => exact ⟨rfl, rfl⟩
+        | some tl =>
+          obtain ⟨t, len⟩ := tl
+          cases (offsets (lens m))[i]? with
+          | none => exact ⟨rfl, rfl⟩
+          | some off =>
+            dsimp only
+            cases writeRaw m.data (some t) off len v with
+            | none => exact ⟨rfl, rfl⟩
+            | some d => exact ⟨rfl, rfl⟩
+      | ctl c =>
+        have := congrArg PMap.cobId (core_ctl m c)
+        have h2 := congrArg PMap.layout (core_ctl m c)
+        exact ⟨this, h2⟩
+    obtain ⟨i1, i2⟩ := ih (pstep m s)
+    simp only [runP, List.foldl_cons] at *
+    exact ⟨i1.trans hs.1, i2.trans hs.2⟩
+
+/-- **Producer → consumer with periodic transmission in the history.**  The producer map went
+    through any history of typed writes interleaved with `start(period)` / `stop()` / `update()`
+    calls (so a periodic task may or may not be running when `transmit()` is called).  `transmit`
+    sends one frame: the COB-ID and exactly the data the writes alone produce; delivered to a
+    subscribed consumer map of the same layout, every variable there reads what the producer's
+    variable holds after the writes alone, with the frame's timestamp. -/
+theorem producer_consumer_periodic (pm cm : PMap) (steps : List PStep) (c : Consumer) (k cob : Nat) (ts : Int)
+    (hnd : c.subs.Nodup) (hk : c.maps[k]? = some cm) (hsub : (cob, k) ∈ c.subs)
+    (hpc : pm.cobId = some cob) (hcc : cm.cobId = some cob) (hlay : cm.layout = pm.layout)
+    (htr : cm.transmitting = false) :
+    ∃ cm', transmit (runP pm steps) = some (cob, (runP pm (steps.filter PStep.isWrite)).data) ∧
+      (notify c cob (runP pm (steps.filter PStep.isWrite)).data ts).1.maps[k]? = some cm' ∧
+      (∀ i, readVar cm' i = readVar (runP pm (steps.filter PStep.isWrite)) i) ∧ cm'.timestamp = some ts := by
+  obtain ⟨h1, _, _⟩ := transmit_independent_of_periodic pm steps
+  obtain ⟨hc0, hl0⟩ := runP_cob_layout (steps.filter PStep.isWrite) pm
+  obtain ⟨cm', t1, t2, t3, t4, _⟩ := producer_consumer (runP pm (steps.filter PStep.isWrite)) cm c k cob ts
+    hnd hk hsub (by rw [hc0, hpc]) hcc (by rw [hl0, hlay]) htr
+  exact ⟨cm', by rw [h1, t1], t2, t3, t4⟩
+
+/-- **The consuming side**: a map whose periodic transmission was started ignores frames; after
+    `stop()` it takes the next frame for its COB-ID — data, timestamp, callbacks once each — as if
+    it had never transmitted. -/
+theorem start_stop_reception (m : PMap) (p : Option Int) (canId : Nat) (data : Bytes) (ts : Int) :
+    ((start m p).2 = true → onMessage (start m p).1 canId data ts = ((start m p).1, [])) ∧
+    (m.cobId = some canId →
+      (onMessage (stop (start m p).1) canId data ts).2 = m.callbacks ∧
+      (onMessage (stop (start m p).1) canId data ts).1.data = data ∧
+      (onMessage (stop (start m p).1) canId data ts).1.timestamp = some ts) := by
+  constructor
+  · intro h
+    apply only_subscribed_map_updates
+    right
+    unfold start at h ⊢
+    split at h
+    · split at h
+      · simp at h
+      · simp [*, PMap.transmitting]
+    · simp at h
+  · intro hc
+    have hc' : (stop (start m p).1).cobId = some canId := by
+      have := congrArg PMap.cobId (core_ctl m (.start p))
+      simpa [ctl, stop, core, hc] using this
+    have hcb : (stop (start m p).1).callbacks = m.callbacks := by
+      have := congrArg PMap.callbacks (core_ctl m (.start p))
+      simpa [ctl, stop, core] using this
+    obtain ⟨c1, c2, c3, _⟩ := callbacks_once (stop (start m p).1) canId data ts hc' rfl
+    exact ⟨c1.trans hcb, c2, c3⟩
+
 /-! ## waiting for reception -/
 
 /-- **A waiting reader is woken by a frame for its map and gets that frame's timestamp; without
@@ -421,5 +593,16 @@ example : GoodMap exMap := ⟨by intro p hp; simp [exMap, mkMap] at hp; rcases h
 example : (writeVar exMap 0 (.int (-3))).bind (fun m => readVar m 0) = some (.int (-3)) := by decide
 example : ((writeVar exMap 0 (.int (-3))).bind (fun m => writeVar m 1 (.int 0xBEEF))).bind
     (fun m => readVar m 0) = some (.int (-3)) := by decide
+
+/-- a history with a periodic task running when `transmit` is called: the frame is the one the
+    writes alone give -/
+def exSteps : List PStep :=
+  [.ctl (.start (some 3600)), .write 0 (.int (-3)), .ctl .update, .write 1 (.int 0xBEEF), .ctl (.start none)]
+example : (runP exMap exSteps).running = some 3600 := by decide
+example : transmit (runP exMap exSteps) = some (0x181, [0xFD, 0xEE, 0x0B]) := by decide
+example : transmit (runP exMap (exSteps.filter PStep.isWrite)) = some (0x181, [0xFD, 0xEE, 0x0B]) := by decide
+example : (start exMap none).2 = false ∧ (start exMap (some 0)).2 = false ∧ (start exMap (some 5)).2 = true := by decide
+example : (onMessage (start exMap (some 5)).1 0x181 [1, 2, 3] 7).2 = [] ∧
+    (onMessage (stop (start exMap (some 5)).1) 0x181 [1, 2, 3] 7).1.data = [1, 2, 3] := by decide
 
 end Canopen.C15
